@@ -513,6 +513,13 @@ PROPS = {
         "level_prefix": "Partial proof -- contracts discharged without bound on the mechanism named below, not the whole statement (what is left out is listed): ",
         "units": ["ednsneg", "starterr"],
         "kani": [],
+        "extra_searches": [
+            {"bin": "c16_search_udp_sizes", "crate": "replay_srv", "release": True,
+             "what": "the real DgramServer on a loopback socket behind Mandatory(Edns(service)): 168 combinations of server limit (512 / 700 / 1232 / 4096, set at start or by "
+                     "reconfiguring the running server), client (no OPT record, or advertising 100 / 512 / 600 / 1000 / 1232 / 4096) and answer size (3 / 28 / 120 records): the response has the "
+                     "request's ID and question and parses completely, is no longer than min(max(512, advertised), max(512, limit)) -- 512 without EDNS --, and has TC set exactly when records "
+                     "had to go; a full answer that fits is not cut (bounded exploration; server harness after a round-11 seeding sub-agent's demonstration programs; its first run found D60)"},
+        ],
         "explanation": "The size clause of the statement, at the place where the limit is decided. EdnsMiddlewareSvc::preprocess (net/server/middleware/edns.rs, the whole 170-line function, real text): for every request, "
                        "exactly the requests RFC 6891 6.1.1 / 6.1.3 and RFC 7828 3.2.1 name are broken off -- more than one OPT record, an OPT record that does not parse, a keep-alive option with a timeout over TCP: FORMERR; "
                        "an EDNS version above 0: BADVERS -- and no other; for a UDP request with a usable OPT record the limit installed in the transport context (which the mandatory middleware truncates to) is at least 512, "
@@ -520,7 +527,7 @@ PROPS = {
                        "*precondition* of the model of UdpTransportContext::set_max_response_size_hint (the real one stores through Arc<Mutex<..>> behind a shared reference, so no postcondition of preprocess can name the "
                        "stored value; the model context carries the advertised size of the request's first OPT record as ghost state). The u16 arithmetic and Ord::clamp (lo <= hi) cannot panic. "
                        "reserve_space_for_opt (real text): 11 octets are reserved for the OPT record of the response, 17 over TCP (keep-alive option). MandatoryMiddlewareSvc::truncate (the enforcing side, real text: nested conditions, "
-                       "the question loop, the closure that rebuilds a minimal OPT record): a response is touched only over UDP and only if it is longer than the limit of the transport context (512 without one); then TC is set, "
+                       "the question loop, the closure that rebuilds a minimal OPT record): a response is touched only over UDP and only if it is longer than the limit -- 512 octets for a request without an OPT record (this clause, taken from the property, exposed D60), otherwise the limit of the transport context (512 without one) --; then TC is set, "
                        "answer and authority sections are dropped, the questions stay in order and an OPT record stays only if the response had one; ID, QR and RD are left alone; an error leaves the header fields alone. "
                        "MandatoryMiddlewareSvc::{preprocess, postprocess} "
                        "(middleware/mandatory.rs, real text): in strict mode IQUERY is answered NOTIMP and a QUERY with more than one question FORMERR, nothing else is broken off; whatever the service produced "
